@@ -48,6 +48,7 @@ struct Config {
 	lzma_check check = LZMA_CHECK_CRC32;
 	uint32_t threads = 1; uint64_t block_size = 0; uint32_t timeout = 0;
 	std::vector<uint8_t> pdict;
+	unsigned warm = 0;             // != 0: encode_all() first uses the same lzma_stream for another small input (1..4: finished / abandoned, short / longer)
 	uint32_t norm_after = 0;       // hook: normalise after about this many bytes (0: off)
 	uint32_t micro_limit = 0;
 	lzma_block block;              // E_BLOCK*
@@ -91,7 +92,7 @@ struct Config {
 			lz.dict_size, lz.lc, lz.lp, lz.pb, (int)lz.mode, lz.nice_len,
 			lz.mf == LZMA_MF_HC3 ? "hc3" : lz.mf == LZMA_MF_HC4 ? "hc4" : lz.mf == LZMA_MF_BT2 ? "bt2" : lz.mf == LZMA_MF_BT3 ? "bt3" : "bt4",
 			lz.depth, pdict.size(), lz.ext_flags, (unsigned long long)(((uint64_t)lz.ext_size_high << 32) | lz.ext_size_low), (int)check, threads, (unsigned long long)block_size, timeout, norm_after, micro_limit);
-		s += b; return s;
+		s += b; if (warm) { s.pop_back(); s += ",\"warm_handle\":" + std::to_string(warm) + "}"; } return s;
 	}
 	uint64_t hash() const {
 		uint64_t h = vg::hcomb(entry, use_preset ? 1000 + preset : 7);
@@ -273,7 +274,7 @@ static inline Encoded encode_all(Config &g, const std::vector<uint8_t> &in, cons
 		if (g.entry == E_BLOCK_BUF) { memset(&g.block, 0, sizeof g.block); g.block.version = 1; g.block.check = g.check; g.block.filters = g.filters; bound = lzma_block_buffer_bound(in.size()); }
 		else if (g.entry == E_RAW_BUF) bound = in.size() + in.size() / 2 + 4096; // no bound function for raw
 		else bound = lzma_stream_buffer_bound(in.size());
-		E.bytes.resize(bound ? bound : 1); size_t pos = 0;
+		E.bytes.assign(bound ? bound : 1, 0xA5); size_t pos = 0;   // a caller's buffer is not zero-filled: whatever the encoder leaves unwritten inside its output shows
 		static const uint8_t z[1] = {0};
 		const uint8_t *ip = in.empty() ? z : in.data();
 		switch (g.entry) {
@@ -289,6 +290,17 @@ static inline Encoded encode_all(Config &g, const std::vector<uint8_t> &in, cons
 		return E;
 	}
 	lzma_stream s = LZMA_STREAM_INIT; s.allocator = al;
+	if (g.warm) {
+		// "warm handle": the same lzma_stream has just encoded another (small) input with the same settings and is re-initialised
+		// without lzma_end(), as xz does for the next file: everything per-stream must start afresh
+		if (init_encoder(&s, g) == LZMA_OK) {
+			uint8_t w[300]; for (size_t i = 0; i < sizeof w; ++i) w[i] = (uint8_t)(i * 7 + g.warm);
+			uint8_t wo[4096]; s.next_in = w; s.avail_in = (g.warm & 2) ? sizeof w : 40; s.next_out = wo; s.avail_out = sizeof wo;
+			lzma_ret wr = lzma_code(&s, (g.warm & 1) ? LZMA_FINISH : LZMA_RUN);   // finished or abandoned in the middle
+			for (int k = 0; k < 64 && wr == LZMA_OK && (g.warm & 1); ++k) { s.next_out = wo; s.avail_out = sizeof wo; wr = lzma_code(&s, LZMA_FINISH); }
+			vg::count("warm_encoder_handle");
+		}
+	}
 	lzma_ret r = init_encoder(&s, g);
 	if (r != LZMA_OK) { E.ret = r; lzma_end(&s); lzma_verif_mf_offset_bias = 0; return E; }
 	drv::Opts o; o.out_cap = out_cap; if (g.entry == E_STREAM_MT) { o.idle_limit = 1u << 30; if (g.timeout) o.small_call_budget = 1500; /* native timed waits are real time */ }
